@@ -85,6 +85,8 @@ def lift(x) -> Poly | None:
     """Number -> Poly ; returns None for NaN"""
     if isinstance(x, Sym):
         return x.p
+    if isinstance(x, (SymFloat, SymInt)):
+        return x.sym.p
     if isinstance(x, (bool, np.bool_)):
         return Poly.const(int(x))
     if isinstance(x, (int, np.integer)):
@@ -305,7 +307,7 @@ class Sym:
     def __int__(self):
         if self.p.is_real_const():
             return int(self.p.const_value())
-        raise EngineError("int() of a symbolic value")
+        return floor_of(self)
 
     def __index__(self):
         raise EngineError("symbolic value used as index")
@@ -349,6 +351,8 @@ def alias_poly(p: Poly, why="large expression") -> Poly:
             a = c.new_var(f"al{len(c.vars)}", "aux", val, why)
         c.assume("eq", a - p, "def-alias")
         cache[k] = a
+        if k in c.positive_polys and not p.has_I():
+            c.assume("gt", a, "alias of an expression assumed positive")
     return a
 
 
@@ -569,3 +573,80 @@ def fresh_complex(name, kind="input", value=None, origin="") -> Sym:
     re = c.new_var(name + "_re", kind, None if value is None else float(np.real(value)), origin)
     im = c.new_var(name + "_im", kind, None if value is None else float(np.imag(value)), origin)
     return Sym(re + Poly.I() * im)
+
+
+# ---------------------------------------------------------------------------------------
+# symbolic parameters that must pass isinstance(x, float) / isinstance(x, int) and `match x: case float():`
+
+
+def _num_ops(cls):
+    def binop(name, rname=None):
+        def f(self, o):
+            return getattr(self.sym, name)(o)
+
+        return f
+
+    for nm in ("__add__", "__radd__", "__sub__", "__rsub__", "__mul__", "__rmul__", "__truediv__", "__rtruediv__", "__pow__", "__neg__", "__lt__", "__le__", "__gt__", "__ge__"):
+        if nm == "__neg__":
+            setattr(cls, nm, lambda self: -self.sym)
+        else:
+            setattr(cls, nm, binop(nm))
+    cls.__eq__ = lambda self, o: self.sym.__eq__(o)
+    cls.__ne__ = lambda self, o: self.sym.__ne__(o)
+    cls.__hash__ = lambda self: hash(("symnum", id(self)))
+    cls.__bool__ = lambda self: bool(self.sym)
+    return cls
+
+
+@_num_ops
+class SymFloat(float):
+    """a float (witness value) carrying a symbolic variable; comparisons and arithmetic are symbolic"""
+
+    def __new__(cls, value, sym):
+        o = float.__new__(cls, value)
+        o.sym = sym
+        return o
+
+    def __repr__(self):
+        return f"SymFloat({float.__repr__(self)})"
+
+    def __format__(self, spec):
+        return float.__format__(float(self), spec)
+
+    def __float__(self):
+        return float.__add__(self, 0.0)
+
+
+@_num_ops
+class SymInt(int):
+    def __new__(cls, value, sym):
+        o = int.__new__(cls, value)
+        o.sym = sym
+        return o
+
+    def __repr__(self):
+        return f"SymInt({int.__repr__(self)})"
+
+    def __index__(self):
+        return int.__add__(self, 0)
+
+    def __int__(self):
+        return int.__add__(self, 0)
+
+
+def floor_of(x, name="fl"):
+    """int(x) for a symbolic non-negative x: fresh q with q <= x < q + 1 (integrality is NOT known to the real-arithmetic
+    solver: weaker, still sound for 'unsat')"""
+    c = cur()
+    p = lift(x)
+    cache = c.caches.setdefault("floor", {})
+    k = p.key()
+    if k not in cache:
+        v = c.eval_or_none(p)
+        wv = None if v is None else float(math.floor(v.real if isinstance(v, complex) else v))
+        q = c.new_var(f"{name}{len(c.vars)}", "aux", wv, f"floor({p.fmt(c.name_of, 4)})")
+        c.assume("ge", p - q, "def-floor: q <= x")
+        c.assume("gt", q + PONE - p, "def-floor: x < q + 1")
+        cache[k] = (q, wv)
+    q, wv = cache[k]
+    return SymInt(int(wv) if wv is not None else 0, Sym(q))
